@@ -89,7 +89,7 @@ PROPS = {
                      "data probes; cluster.bucketCount / GetBucketNames / directories compared after every step; forced open/close races"),
     "C14": dict(modules=["Rosmar.Properties.C14", "Rosmar.Gen.TiePure", "Rosmar.Gen.TieSqlTouch", "Rosmar.Gen.TieSqlSet"], slices=[EXPIRY, EXPIRYD, MULTI],
                 proj=P(rb=["row", "row.v", "row.exp", "row.tomb", "ge"], ev=["k", "op", "exp"], results=True,
-                       ops={"expstate", "fire", "restart", "touch", "gat"}),
+                       ops={"expstate", "fire", "restart", "reopenmem", "touch", "gat"}),
                 what="stored expiries, the expiry manager's next-fire time after every operation, sweeps at scripted times, reopen"),
     "C19": dict(modules=["Rosmar.Properties.C19"], slices=[QUERY, QUERYD],
                 proj=P(rb=["row", "row.v", "row.x"], results=True, ops={"query"}),
@@ -252,7 +252,7 @@ def correspondence(pid, cfg, tier, seed, log):
     return cov, divergences, rejections
 
 
-NO_COLLECTION_OPS = {"begin", "end", "clock", "now", "fire", "purge", "restart", "draw", "expstate"}
+NO_COLLECTION_OPS = {"begin", "end", "clock", "now", "fire", "purge", "restart", "reopenmem", "draw", "expstate"}
 
 
 def isolation_counterexample(ops):
